@@ -91,6 +91,97 @@ GEN = [
         proof { assert(sorted.subrange(0, sorted.len() as int) =~= sorted); }'''),
 ]
 
+SCALA_HEAD = '''pub trait ScalaGen {
+    fn begin_file(&mut self, w: &mut WriteSink, parsed_data: &ParsedData) -> std::io::Result<()>;
+    fn end_file(&mut self, w: &mut WriteSink) -> std::io::Result<()>;
+    fn unsigned_integer_used(&self, data: &ParsedData) -> bool;
+    fn begin_package_object(&mut self, w: &mut WriteSink) -> std::io::Result<()>;
+    fn write_unsigned_aliases(&mut self, w: &mut WriteSink) -> std::io::Result<()>;
+    fn end_package_object(&mut self, w: &mut WriteSink) -> std::io::Result<()>;
+    fn begin_package(&mut self, w: &mut WriteSink) -> std::io::Result<()>;
+    fn end_package(&mut self, w: &mut WriteSink) -> std::io::Result<()>;
+    fn write_type_alias(&mut self, w: &mut WriteSink, t: &RustTypeAlias, Tracked(log): Tracked<&mut EmitLog>) -> (r: std::io::Result<()>)
+        ensures final(log).emitted == old(log).emitted.push(RustItem::Alias(*t));
+    fn write_struct(&mut self, w: &mut WriteSink, rs: &RustStruct, Tracked(log): Tracked<&mut EmitLog>) -> (r: std::io::Result<()>)
+        ensures final(log).emitted == old(log).emitted.push(RustItem::Struct(*rs));
+    fn write_enum(&mut self, w: &mut WriteSink, e: &RustEnum, Tracked(log): Tracked<&mut EmitLog>) -> (r: std::io::Result<()>)
+        ensures final(log).emitted == old(log).emitted.push(RustItem::Enum(*e));
+
+'''
+
+SCALA = [
+    rep(A.text('&mut dyn Write'), '&mut WriteSink', tag='T7'),
+    ins(A.text('data: ParsedData,'), ' Tracked(log): Tracked<&mut EmitLog>,', where='after'),
+    ins(A.ret(), '(res: ', where='before'), ins(A.ret(), ')', where='after'),
+    ins(A.sig(), '''
+        ensures
+            /*C03: Scala - every parsed item is written exactly once, or the run fails (constants cannot be generated: an error, not an omission)*/
+            res is Ok ==> final(log).emitted == old(log).emitted + all_items(data),
+    ''', cid='scala_generate_types.contract'),
+    ins(A.body_start(), '''
+        let ghost log0 = log.emitted;
+        let ghost al = data.aliases@.map_values(|a: RustTypeAlias| RustItem::Alias(a));
+        let ghost stv = data.structs@.map_values(|s: RustStruct| RustItem::Struct(s));
+        let ghost env = data.enums@.map_values(|e: RustEnum| RustItem::Enum(e));'''),
+    rep(A.span('std::io::Error::new(', 'c.id.original ), )'), 'outlined_unsupported_const(c)', tag='T3', cid='o_unsup'),
+    ins(A.text('for a in'), ' ita:'),
+    ins(A.loop(0), '''
+                invariant log.emitted == log0 + al.subrange(0, ita.index@), al == data.aliases@.map_values(|a: RustTypeAlias| RustItem::Alias(a)),
+                    0 <= ita.index@ <= al.len(),
+            '''),
+    ins(A.text('for a in data.aliases.iter()'), '''proof { assert(log.emitted =~= log0 + al.subrange(0, 0)); }
+            ''', where='before'),
+    ins(A.loop_body(0), '''
+                let ghost k = ita.index@; let ghost before = log.emitted;'''),
+    ins(A.text('self.write_type_alias(writable, a'), ', Tracked(log)', where='after'),
+    ins(A.loop_end(0), '''
+                proof { assert(al[k] == RustItem::Alias(*a)); assert(log0 + al.subrange(0, k + 1) =~= (log0 + al.subrange(0, k)).push(al[k])); }
+            '''),
+    ins(A.loop_after(0), '''
+            proof { assert(al.subrange(0, al.len() as int) =~= al); }'''),
+    ins(A.text('if !data.structs.is_empty() || !data.enums.is_empty() {'), '''proof { if data.aliases@.len() == 0 { assert(al =~= Seq::<RustItem>::empty()); assert(log.emitted =~= log0 + al); } }
+        let ghost log1 = log.emitted;
+        ''', where='before'),
+    ins(A.text('for s in'), ' its:'),
+    ins(A.text('for s in data.structs.iter()'), '''proof { assert(log.emitted =~= log1 + stv.subrange(0, 0)); }
+            ''', where='before'),
+    ins(A.loop(1), '''
+                invariant log.emitted == log1 + stv.subrange(0, its.index@), stv == data.structs@.map_values(|s: RustStruct| RustItem::Struct(s)),
+                    0 <= its.index@ <= stv.len(), log1 == log0 + al,
+            '''),
+    ins(A.loop_body(1), '''
+                let ghost k = its.index@;'''),
+    ins(A.text('self.write_struct(writable, s'), ', Tracked(log)', where='after'),
+    ins(A.loop_end(1), '''
+                proof { assert(stv[k] == RustItem::Struct(*s)); assert(log1 + stv.subrange(0, k + 1) =~= (log1 + stv.subrange(0, k)).push(stv[k])); }
+            '''),
+    ins(A.loop_after(1), '''
+            proof { assert(stv.subrange(0, stv.len() as int) =~= stv); }
+            let ghost log2 = log.emitted;'''),
+    ins(A.text('for e in'), ' ite:'),
+    ins(A.text('for e in data.enums.iter()'), '''proof { assert(log.emitted =~= log2 + env.subrange(0, 0)); }
+            ''', where='before'),
+    ins(A.loop(2), '''
+                invariant log.emitted == log2 + env.subrange(0, ite.index@), env == data.enums@.map_values(|e: RustEnum| RustItem::Enum(e)),
+                    0 <= ite.index@ <= env.len(), log2 == log1 + stv, log1 == log0 + al,
+            '''),
+    ins(A.loop_body(2), '''
+                let ghost k = ite.index@;'''),
+    ins(A.text('self.write_enum(writable, e'), ', Tracked(log)', where='after'),
+    ins(A.loop_end(2), '''
+                proof { assert(env[k] == RustItem::Enum(*e)); assert(log2 + env.subrange(0, k + 1) =~= (log2 + env.subrange(0, k)).push(env[k])); }
+            '''),
+    ins(A.loop_after(2), '''
+            proof { assert(env.subrange(0, env.len() as int) =~= env); }'''),
+    ins(A.text('self.end_file(writable)?;'), '''proof {
+            if data.structs@.len() == 0 && data.enums@.len() == 0 { assert(stv =~= Seq::<RustItem>::empty()); assert(env =~= Seq::<RustItem>::empty()); }
+            assert(data.consts@.len() == 0);
+            assert(data.consts@.map_values(|c: RustConst| RustItem::Const(c)) =~= Seq::<RustItem>::empty());
+            assert(log.emitted =~= log0 + all_items(data));
+        }
+        ''', where='before'),
+]
+
 UNIT = Unit(
     name='genloop',
     props=['C03', 'C11', 'C07'],
@@ -99,13 +190,15 @@ UNIT = Unit(
     items=[
         Item('enum_RustItem', 'core/src/rust_types.rs', ['enum RustItem']),
         Item('generate_types', 'core/src/language/mod.rs', ['trait Language', 'fn generate_types'], GEN, wrap=(TRAIT_HEAD, '\n}\n')),
+        Item('scala_generate_types', 'core/src/language/scala.rs', ['impl Language for Scala {', 'fn generate_types'], SCALA, wrap=(SCALA_HEAD, '\n}\n')),
     ],
     outlines={
+        'o_unsup': {'decl': 'fn outlined_unsupported_const(c: &RustConst) -> (r: IoError)', 'compile': False},
         'o_collect': {'decl': '''fn outlined_collect_items(aliases: Vec<RustTypeAlias>, structs: Vec<RustStruct>, enums: Vec<RustEnum>, consts: Vec<RustConst>) -> (r: Vec<RustItem>)
     ensures r@ == aliases@.map_values(|a: RustTypeAlias| RustItem::Alias(a)) + structs@.map_values(|s: RustStruct| RustItem::Struct(s))
                   + enums@.map_values(|e: RustEnum| RustItem::Enum(e)) + consts@.map_values(|c: RustConst| RustItem::Const(c))''', 'compile': False},
     },
-    functions=['Language::generate_types'],
+    functions=['Language::generate_types', 'ScalaGen::generate_types'],
     trusted=[
         'stub trait `Language`: every writer method records exactly the item it is given in the ghost EmitLog (text emission is not under contract); '
         '`dyn Write` replaced by an opaque sink (T7)',
@@ -113,7 +206,7 @@ UNIT = Unit(
         'outlined (T3): Vec::from_iter(aliases.map(Alias).chain(structs.map(Struct)).chain(enums..).chain(consts..)) is the concatenation in that order',
     ],
     undecided=[
-        'the overriding generate_types of the Python, Go and Scala back ends (same loop shape; not extracted)',
+        'the overriding generate_types of the Python and Go back ends (same loop shape; not extracted)',
         'that each write_* method emits one well-formed definition for its item (text emission)',
     ],
 )
